@@ -299,3 +299,41 @@ Example C13_Of_walk_nonvacuous :
 Proof.
   split; [repeat constructor; reflexivity|]. vm_compute. intuition congruence.
 Qed.
+
+(** * widened: the NextOne walk against select.go (C02's models) *)
+From Low Require Import Model.Select Proofs.NextSelect.
+
+(** Select32 / Select32R64 index into the NextOne walk of the whole bitmap: for index [k] they return the
+    [k]-th 1-bit the walk visits and the one visited next ([64 * len] after the last) *)
+Theorem C13_Select32_nth_walk : forall ws sidx l k, words_ok ws -> IndexSelect32 ws = Some sidx ->
+  IterNext ws 0 (64 * zlen ws) = Some l -> 0 <= k < zlen l ->
+  Select32 ws sidx k =
+  Some (nth (Z.to_nat k) l 0, if k + 1 <? zlen l then nth (Z.to_nat (k + 1)) l 0 else 64 * zlen ws).
+Proof. exact Select32_nth_walk. Qed.
+Print Assumptions C13_Select32_nth_walk.
+
+Theorem C13_Select32R64_nth_walk : forall ws sidx ridx l k, words_ok ws ->
+  IndexSelect32R64 ws = Some (sidx, ridx) ->
+  IterNext ws 0 (64 * zlen ws) = Some l -> 0 <= k < zlen l ->
+  Select32R64 ws sidx ridx k =
+  Some (nth (Z.to_nat k) l 0, if k + 1 <? zlen l then nth (Z.to_nat (k + 1)) l 0 else 64 * zlen ws).
+Proof. exact Select32R64_nth_walk. Qed.
+Print Assumptions C13_Select32R64_nth_walk.
+
+(** the bundle the harness runs ([bitmap.Next/Select32]); never panics *)
+Theorem C13_WalkSelect : forall ws, words_ok ws ->
+  let o := ones (flat ws) in
+  WalkSelect ws = Some (o, sel_pairs o (64 * zlen ws), sel_pairs o (64 * zlen ws)).
+Proof. exact WalkSelect_exact. Qed.
+Print Assumptions C13_WalkSelect.
+
+Example C13_WalkSelect_nonvacuous :
+  words_ok [2^63 + 1; 0; 6] /\
+  WalkSelect [2^63 + 1; 0; 6] =
+    Some ([0; 63; 129; 130], [(0, 63); (63, 129); (129, 130); (130, 192)], [(0, 63); (63, 129); (129, 130); (130, 192)]) /\
+  sel_pairs [0; 63; 129; 130] 192 = [(0, 63); (63, 129); (129, 130); (130, 192)] /\
+  WalkSelect [] = Some ([], [], []).
+Proof.
+  split; [apply words_okb_ok; reflexivity|].
+  vm_compute. intuition congruence.
+Qed.
